@@ -1167,7 +1167,7 @@ def init_probe(chk, xvc, only=None):
     """`xvc init` in a Git repository that already has a root .gitignore: the user's bytes stay a prefix, an
     unterminated last line stays a line of its own, and what Git ignored before it ignores afterwards"""
     cases = [("build\n*.o\n", ["build/x.o", "y.o"]), ("build", ["build/x.o"]), ("*.o\n!keep.o", ["y.o"]), ("# note\nout/", ["out/z"]),
-             ("build\r\n", []), ("", [])]
+             ("build\r\n", []), ("", []), ("# .xvc/*\n", []), ("legacy/.xvc/*\nnotes.txt\n", ["notes.txt"])]
     if only is not None:
         cases = [(bytes.fromhex(only["gitignore"]).decode("utf-8", "surrogateescape"), only["ignored"])]
     n = 0
@@ -1194,6 +1194,17 @@ def init_probe(chk, xvc, only=None):
                 for p in ignored:
                     if rp.git("check-ignore", "-q", "--no-index", "./" + p).returncode != 0:
                         what = "%s was ignored by the user's .gitignore %r and is not after `xvc init`" % (p, old_txt); break
+                if what is None:
+                    # whatever the user's file says, the rules of `xvc init` are in force: after a track, neither the cache nor
+                    # the tracked file can be staged
+                    rp.write("data.bin", b"\x00payload\n")
+                    r2 = rp.xvc("file", "track", "data.bin", timeout=300)
+                    if not r2.timed_out and not r2.failed:
+                        out = rp.git("-c", "core.quotepath=off", "add", "-A", "-n").stdout
+                        staged = [m.group(1) for m in re.finditer(r"^add '(.*)'$", out, re.M)]
+                        bad = [q for q in staged if q == "data.bin" or any(q.startswith(".xvc/" + cd + "/") for cd in XVC_CACHE_DIRS)]
+                        if bad:
+                            what = "after `xvc init` over the user's .gitignore %r and `xvc file track data.bin`, `git add -A` would stage %s" % (old_txt, ", ".join(bad[:3]))
             if what:
                 chk.fail("oracle", what, {"input": {"kind": "init-probe", "gitignore": old.hex(), "ignored": ignored}}, name="initprobe")
             chk.count(("initprobe", old_txt), True)
